@@ -17,13 +17,17 @@ def needs_sep(prev, tk):
     return False
 
 
-def assign_ws(toks, rng, style="random", eol="\n", force=False):
-    """give every token (and comment) that has none yet its leading white space"""
+WS_STRAY_CR = WS_RANDOM + ["\r", "\r  ", " \r", "\r\r", "\n\r"]
+
+
+def assign_ws(toks, rng, style="random", eol="\n", force=False, stray_cr=False):
+    """give every token (and comment) that has none yet its leading white space.
+    stray_cr: some gaps contain a lone carriage return (a line break of its own for LSP positions, plain white space for SPL)"""
     prev = None
     for tk in toks:
         if tk.pre is None or force:
             if style == "random":
-                tk.pre = rng.choice(WS_RANDOM)
+                tk.pre = rng.choice(WS_STRAY_CR if stray_cr else WS_RANDOM)
             elif style == "compact":
                 tk.pre = ""
             elif style == "spaced":
@@ -58,9 +62,9 @@ def render(toks, eol="\n", final=None):
     return "".join(out)
 
 
-def layout(P, rng, style="random", eol="\n", final=None, force=False):
+def layout(P, rng, style="random", eol="\n", final=None, force=False, stray_cr=False):
     toks = P.index()
-    assign_ws(toks, rng, style, eol, force)
+    assign_ws(toks, rng, style, eol, force, stray_cr)
     return render(toks, eol, final)
 
 
